@@ -138,6 +138,7 @@ class Config:
     max_paths: int = 20000
     max_steps: int = 50000
     mark_loops: bool = False
+    loop_hook: Optional[Callable] = None  # (run, for-statement, env, iteration index, "iter"|"done"): lets a rule observe loop-head states
     preempt_in: set = field(default_factory=set)  # function qualnames at whose statement boundaries `preempt_action` may run once
     preempt_action: Optional[Callable] = None  # (interp, run, stmt) -> None: what another thread does, atomically
     max_seconds: float = 60.0
@@ -766,7 +767,12 @@ class Interp:
         itv = self.eval(run, st.iter, env)
         items = self.iterate(run, itv, st)
         broke = False
+        hook = self.cfg.loop_hook
+        n_it = 0
         for item in items:
+            if hook is not None:
+                hook(run, st, env, n_it, "iter")
+            n_it += 1
             self.assign(run, st.target, item, env)
             try:
                 self.exec_block(run, st.body, env)
@@ -776,6 +782,8 @@ class Interp:
             except ContinueSig:
                 continue
         if not broke:
+            if hook is not None:
+                hook(run, st, env, n_it, "done")
             self.exec_block(run, st.orelse, env)
 
     def iterate(self, run, itv: Value, node):
